@@ -34,8 +34,9 @@
 (*     call of the body is checked at depth d).                            *)
 (*  S  stack-size limit: how many slots an activation needs is a compiler  *)
 (*     detail.  S = -1 (default) is never hit by these scenarios; S >= 0   *)
-(*     ("tiny") may fire at any call point.  Only the consequences are     *)
-(*     fixed.                                                              *)
+(*     ("tiny") may fire at any call point and must fire at a call point   *)
+(*     reached with more live frames than S.  Otherwise only the           *)
+(*     consequences are fixed.                                             *)
 (* A limit completion ends the host step that owns the chain with          *)
 (* limit:<kind>, bypassing every catch and finally; nothing of the chain   *)
 (* runs afterwards (a job step also drops the remaining queue, as the      *)
@@ -269,8 +270,13 @@ AtCallPoint(mm, lims) ==
 
 NoteNo == [ex |-> FALSE, wok |-> TRUE]
 
+\* every live frame (the script of the running host step included) occupies at least one stack slot, so a call
+\* point reached with more frames than S slots cannot pass the stack-size check
+FrameCount(mm) == IF mm.stack = <<>> THEN 1 ELSE Len(mm.stack)
+StackMust(mm, lims) == lims.S >= 0 /\ mm.step < 4 /\ AtCallPoint(mm, lims) /\ FrameCount(mm) > lims.S
+
 Succ(mm, lims) ==
-    Base(mm, lims) \cup
+    (IF StackMust(mm, lims) THEN {x \in Base(mm, lims) : x.lim[mm.step] > 0} ELSE Base(mm, lims)) \cup
     (IF lims.S >= 0 /\ mm.step < 4 /\ AtCallPoint(mm, lims)
      THEN {IF mm.step = 3 THEN [FireLimit(mm, "limit:StackSize", NoteNo, -1) EXCEPT !.step = 4]
                           ELSE FireLimit(mm, "limit:StackSize", NoteNo, -1)}
